@@ -29,7 +29,7 @@ def main():
             print('%-40s %3d obligations, %d not proved, %.2fs (exec %.2fs, %d paths)' %
                   (c.name, len(results), len(bad), dt, meta['exec_s'], meta['paths']))
             for r in bad:
-                print('   ', r['verdict'], r['obligation'], r['backend'], r['s'], r.get('reason'), r['trace'][-12:])
+                print('   ', r['verdict'], r['obligation'], r['backend'], r['s'], r.get('reason'), (r['trace'] or [])[-12:])
                 if r['model']:
                     print('      model:', {k: v for k, v in list(r['model'].items())[:30]})
 
